@@ -288,10 +288,18 @@ EvVar  == IsEv /\ X.e = "var"  /\
      ELSE [st EXCEPT !.status = "stuck"])
 (* m(a1, .., an) where m(p1, .., pn) ==> body: the body with the arguments substituted.       *)
 (* Macro bodies mention only their parameters (capture-free by construction of the family).   *)
+(* Macro definitions are lexically scoped: `{ macro m(p1, .., pn) == body2; e }` (node "lmac") gives m the new   *)
+(* body inside e only -- uses of m after the block, and in functions called from e, keep the outer meaning.      *)
+(* The local meaning lives in the environment under the key "%mac<i>" (a name no program variable can have).     *)
+MacKey(mi) == "%mac" \o ToString(mi)
 EvMac == IsEv /\ X.e = "mac" /\
   Go(LET m == P.macs[X.mi]
+         body == IF MacKey(X.mi) \in DOMAIN st.e THEN st.s[st.e[MacKey(X.mi)]].body ELSE m.body
          b == BindAll(<<>>, st.s, m.ps, [i \in 1..Len(X.args) |-> [o |-> "thunk", x |-> X.args[i], env |-> st.e]])
-     IN [st EXCEPT !.s = b.s, !.e = b.env, !.c = Ev(m.body)])
+     IN [st EXCEPT !.s = b.s, !.e = b.env, !.c = Ev(body)])
+EvLMac == IsEv /\ X.e = "lmac" /\
+  Go([st EXCEPT !.s = Alloc(st.s, [o |-> "macbody", body |-> X.mbody]), !.e = Bind(st.e, MacKey(X.mi), Len(st.s) + 1),
+                !.c = Ev(X.body)])
 
 (* every form that first evaluates a list of operands left to right        *)
 (* what: [w |-> "prim", op] | [w |-> "call", fi] | [w |-> "callv"] |        *)
@@ -638,7 +646,7 @@ Init == /\ pid \in 1..Len(Progs)
         /\ st = [c |-> Val(VUnit), e |-> <<>>, k |-> <<[f |-> "top", i |-> 1]>>, s |-> <<>>, g |-> <<>>,
                  o |-> <<>>, status |-> "run", n |-> 0]
 
-Step == \/ EvLit \/ EvBool \/ EvStr \/ EvUnit \/ EvVar \/ EvMac \/ EvPrim \/ EvCall \/ EvCallV \/ EvPrint
+Step == \/ EvLit \/ EvBool \/ EvStr \/ EvUnit \/ EvVar \/ EvMac \/ EvLMac \/ EvPrim \/ EvCall \/ EvCallV \/ EvPrint
         \/ EvList \/ EvCons \/ EvListOp \/ EvNewArr \/ EvARef \/ EvASet \/ EvALen \/ EvMkRec \/ EvRGet \/ EvRSet
         \/ EvMkUn \/ EvUIs \/ EvUGet \/ EvDCall \/ EvThrow \/ EvIf \/ EvAnd \/ EvOr \/ EvSeq \/ EvAsg \/ EvLet \/ EvLam \/ EvGen
         \/ EvWhile \/ EvFor \/ EvForIn \/ EvBreak \/ EvIter \/ EvRet \/ EvYield \/ EvTry \/ EvError \/ EvAssert \/ RetAssert \/ EvTuple \/ EvMAsg \/ RetMAsg \/ EvCollect \/ EvCollectGen \/ EvCollItem \/ RetCollItemK \/ RetCollG \/ RetCollNext \/ RetCollCond \/ RetCollBody \/ EvACall \/ EvPerRep \/ EvWhere \/ EvPFor \/ RetPForStep
